@@ -27,6 +27,18 @@ Symbols(G)     == 0 .. (G.nsym - 1)
 ProdsOf(G, A)  == {p \in ProdIdx(G) : Lhs(G, p) = A}
 Range(s)       == {s[i] : i \in 1 .. Len(s)}
 
+\* the dump itself is consistent: every index it mentions exists (a compiler with a defect
+\* in its index bookkeeping can write a grammar that is not; the monitors say so and stop)
+ConsistentG(G) ==
+  /\ G.nsym = G.nterm + Len(G.nonterms)
+  /\ Len(G.terms) = G.nterm
+  /\ \A p \in ProdIdx(G) : /\ Lhs(G, p) \in NonTerms(G)
+                           /\ \A i \in 1 .. RhsLen(G, p) : Rhs(G, p)[i] \in Symbols(G)
+  /\ \A k \in 1 .. Len(G.nonterms) : \A j \in 1 .. Len(G.nonterms[k].prods) :
+        /\ G.nonterms[k].prods[j] \in ProdIdx(G)
+        /\ Lhs(G, G.nonterms[k].prods[j]) = G.nterm + k - 1
+  /\ G.start \in NonTerms(G)
+
 (* ---- nullable nonterminals: least N with A in N if some A -> X1..Xn has all Xi in N *)
 RECURSIVE NullFix(_, _)
 NullFix(G, N) ==
